@@ -296,7 +296,7 @@ func dedupe(xs []string) []string {
 // ---------------------------------------------------------------------------
 // X-ir-immutable: resolution and introspection never write into the IR.
 
-var reIRSlice = regexp.MustCompile(`^(p|fv):[A-Za-z_]+((\.[A-Za-z_]+)|(\[[^\]]*\])|(#\d+)|(\.\([^)]*\)))*\.(Params|Fields|FieldOrders|Results|resultIndexes|As)(\[:\])*$`)
+var reIRSlice = regexp.MustCompile(`^(p|fv):[A-Za-z_]+((\.[A-Za-z_]+)|(\[[^\]]*\])|(#\d+)|(\.\([^)]*\)))*\.(Params|Fields|FieldOrders|Results|resultIndexes|As)(\[[^\]]*:[^\]]*\])*$`)
 
 var irTypes = []string{"paramList", "paramObject", "resultList", "resultObject", "resultSingle", "resultGrouped"}
 
